@@ -446,6 +446,24 @@ struct Env {
       in.b = (uint8_t)rng.below(NG);
       prog.push_back(in);
     }
+    // shaped: "retire, then leave" — the thread's last operations unlink/replace nodes, so its retire list is handed
+    // over (thread exit, abandon strategies) while other threads still hold guards on those nodes
+    if (rng.chance(1, 3)) {
+      int tail = rng.range(1, 2);
+      for (int i = 0; i < tail && i < (int)prog.size(); ++i) {
+        RInstr& in = prog[prog.size() - 1 - (size_t)i];
+        in.op = rng.chance(1, 2) ? R_UNLINK : R_PUBLISH;
+      }
+    }
+    // shaped: "hold a guard for long" — acquire early, dereference at the very end
+    if (rng.chance(1, 3) && prog.size() >= 3) {
+      prog[0].op = R_ACQUIRE;
+      prog.back().op = R_DEREF;
+      prog.back().a = prog[0].a;
+      for (size_t i = 1; i + 1 < prog.size(); ++i)
+        if (prog[i].a == prog[0].a && prog[i].op != R_PUBLISH && prog[i].op != R_UNLINK && prog[i].op != R_DEREF)
+          prog[i].a = (uint8_t)((prog[0].a + 1) % NG);
+    }
     return prog;
   }
 
